@@ -23,8 +23,10 @@ Rec == ndJsonDeserialize(IOEnv.VERIF_TRACE)
 VARIABLES i,      \* next line to consume
           base,   \* line of the current run's reset event
           cs,     \* model state of the object under observation
-          pos     \* reader: offset into the run's input
-vars == <<i, base, cs, pos>>
+          pos,    \* reader: offset into the run's input
+          lsum,   \* sum of the lengths returned by the run's length calls
+          wsum    \* number of bytes appended by the run's write calls
+vars == <<i, base, cs, pos, lsum, wsum>>
 
 Ev == Rec[i]
 Run == Rec[base]
@@ -33,7 +35,7 @@ Buf == Run.buf
 IsLe == P = "binle"
 Has(f) == f \in DOMAIN Ev
 
-TraceInit == i = 1 /\ base = 1 /\ cs = <<>> /\ pos = 0
+TraceInit == i = 1 /\ base = 1 /\ cs = <<>> /\ pos = 0 /\ lsum = 0 /\ wsum = 0
 
 \* ---------------------------------------------------------------- expected bytes of a write op
 \* binary family (bin, binle, unsafe): stateless
@@ -44,6 +46,7 @@ BinOut(e, le) ==
     [] e.op = "w_double" -> IF le THEN Rev(e.v) ELSE e.v
     [] e.op = "w_uuid" -> e.v
     [] e.op = "w_binary" -> I32B(Len(e.v), le) \o e.v
+    [] e.op = "w_raw" -> e.v                          \* write_bytes_without_len: retained unknown fields, verbatim
     [] e.op = "w_field_begin" -> <<e.t>> \o I16B(e.id, le)
     [] e.op = "w_field_stop" -> <<0>>
     [] e.op \in {"w_list_begin", "w_set_begin"} -> <<e.t>> \o I32B(e.n, le)
@@ -58,6 +61,7 @@ CompactW(w, e) ==
     [] e.op = "w_double" -> WDouble(w, e.v)
     [] e.op = "w_uuid" -> WUuid(w, e.v)
     [] e.op = "w_binary" -> WBinary(w, e.v)
+    [] e.op = "w_raw" -> [ok |-> TRUE, out |-> e.v, w |-> w]
     [] e.op = "w_field_begin" -> WFieldBegin(w, e.t, e.id)
     [] e.op = "w_field_end" -> WFieldEnd(w)
     [] e.op = "w_field_stop" -> WFieldStop(w)
@@ -140,10 +144,16 @@ UnsafeR(c, e, n) ==
 Advance == i' = i + 1
 
 TReset == /\ Ev.op = "reset" /\ Ev.err = ""
-          /\ base' = i /\ cs' = <<>> /\ pos' = 0 /\ Advance
+          /\ base' = i /\ cs' = <<>> /\ pos' = 0 /\ lsum' = 0 /\ wsum' = 0 /\ Advance
+
+\* end of a run that sized and then wrote ONE value (emitted size() / encode()): the size reported, the sum of the
+\* length calls and the bytes written are the same number, and a compact object is back in its initial state
+TEnd == /\ Ev.op = "end" /\ Advance /\ UNCHANGED <<base, cs, pos, lsum, wsum>>
+        /\ Ev.size = lsum /\ lsum = wsum
+        /\ (P = "compact" => cs = W0)
 
 TInit ==
-  /\ Ev.op = "init" /\ Advance /\ UNCHANGED <<base, pos>>
+  /\ Ev.op = "init" /\ Advance /\ UNCHANGED <<base, pos, lsum, wsum>>
   /\ IF P = "compact" THEN Ev.st = (IF Run.dir = "w" THEN W0 ELSE R0) /\ cs' = Ev.st
      ELSE IF P = "unsafe" THEN /\ Ev.st.index = 0
                                /\ (Run.dir = "r" => Ev.st.translen = Len(Inp) /\ Ev.st.buflen = Len(Inp))
@@ -155,7 +165,9 @@ IsL == SubSeq(Ev.op, 1, 2) = "l_"
 IsR == SubSeq(Ev.op, 1, 2) = "r_"
 
 TWrite ==
-  /\ Ev.op \notin {"reset", "init"} /\ IsW /\ Advance /\ UNCHANGED <<base, pos>>
+  /\ Ev.op \notin {"reset", "init", "end"} /\ IsW /\ Advance /\ UNCHANGED <<base, pos>> /\ wsum' = wsum + Len(Ev.out)
+  \* retained unknown fields are sized by their own length, not through a length call of the protocol
+  /\ lsum' = IF Ev.op = "w_raw" THEN lsum + Len(Ev.out) ELSE lsum
   /\ IF P = "compact"
      THEN LET q == CompactW(cs, Ev) IN q.ok /\ q.out = Ev.out /\ q.w = Ev.st /\ cs' = q.w
      ELSE LET out == BinOut(Ev, IsLe) IN
@@ -165,14 +177,14 @@ TWrite ==
              ELSE Ev.st = <<>> /\ cs' = cs
 
 TLen ==
-  /\ Ev.op \notin {"reset", "init"} /\ IsL /\ Advance /\ UNCHANGED <<base, pos>>
+  /\ Ev.op \notin {"reset", "init", "end"} /\ IsL /\ Advance /\ UNCHANGED <<base, pos, wsum>> /\ lsum' = lsum + Ev.ret
   /\ IF P = "compact"
      THEN LET q == CompactL(cs, Ev) IN q.ok /\ q.n = Ev.ret /\ q.w = Ev.st /\ cs' = q.w
      ELSE /\ LenOfOp(Ev, IsLe) = Ev.ret
           /\ Ev.st = cs /\ cs' = cs              \* a length call never moves the unchecked cursor
 
 TRead ==
-  /\ Ev.op \notin {"reset", "init"} /\ IsR /\ Advance /\ UNCHANGED base
+  /\ Ev.op \notin {"reset", "init", "end"} /\ IsR /\ Advance /\ UNCHANGED <<base, lsum, wsum>>
   /\ IF P = "compact"
      THEN LET q == CompactR(cs, Ev) IN q.ok /\ q.n = Ev.n /\ q.r = Ev.st /\ cs' = q.r /\ pos' = pos + q.n
      ELSE LET q == BinR(Ev) IN
@@ -182,7 +194,7 @@ TRead ==
                   c.ok /\ c.c = Ev.st /\ cs' = c.c /\ UConsumed(Len(Inp), c.c) = pos + q.n
              ELSE Ev.st = <<>> /\ cs' = cs
 
-TraceNext == i <= Len(Rec) /\ (TReset \/ TInit \/ TWrite \/ TLen \/ TRead)
+TraceNext == i <= Len(Rec) /\ (TReset \/ TInit \/ TWrite \/ TLen \/ TRead \/ TEnd)
 TraceSpec == TraceInit /\ [][TraceNext]_vars
 
 \* a compact protocol object is back in its initial state whenever a top-level value is complete
